@@ -238,7 +238,9 @@ def model_op(op, impl):
             else:
                 m["before"] = {"path": ref[:-1] + [ref[-1] + 1]} if ref[-1] + 1 < len(sibs) else None
             if typed:
-                m["kind"] = "child"
+                m["kind"] = impl.node(op["t"], ref).kind
+    if op["op"] == "w.addnode" and op.get("via") == "copy_to":
+        m["kind"] = None   # copy_to() has no `kind` argument
     if op["op"] == "w.setdata" and op.get("via") == "rename":
         m["did"] = None
         m["clones"] = None
